@@ -6,8 +6,7 @@ open LokiModel.C04 Sexp
 
 Trees: `(s "text")`, `(j "sep" true|false tree…)`, `(add tree "x")`, `(radd "x" tree)`, `(cat tree tree)`.
 Requests:
-* `(str W "cont" tree)` → `(ok "text" dq ne rw)` / `(error …)`; the known-class predicates `knownDQ` (`na` for trees deeper than 2,
-  where the text-based classifier of the harness is not comparable), `knownNE`, `knownRW`
+* `(str W "cont" tree)` → `(ok "text")` / `(error …)`
 * `(fmt W "contfmt" depth (tree…) comment|none nowrap noindent trim)` → `(ok "text")`
 * `(chunks "s")` → `(ok "c"…)`
 -/
@@ -59,10 +58,7 @@ def step : Sexp → Option Sexp
       | .ok cfg =>
         match render bigFuel cfg t with
         | .error e => pure (errS e)
-        | .ok s =>
-          let dq := if depth t > 2 then atom "na" else ofBool (knownDQ bigFuel cfg t)
-          pure (list [atom "ok", str (String.ofList s), dq, ofBool (knownNE bigFuel cfg true t),
-                      ofBool (knownRW bigFuel cfg true 0 t)])
+        | .ok s => pure (list [atom "ok", str (String.ofList s)])
   | list [atom "fmt", w, cf, depth, list ts, comment, nw, ni, tr] => do
       let w ← w.toNat?; let cf ← sToList cf; let depth ← depth.toNat?
       let ts ← decTrees 10000 ts
